@@ -385,3 +385,23 @@ Proof.
       rewrite chk_ok by lia. exists tt; auto.
   - rewrite E. discriminate.
 Qed.
+
+(* ------------------------------------------------------------------ the counting argument of augment's
+   scratch lists (to_do with on_to_do, scan with done, ready with done): a list of columns below n
+   that all carry the current row's mark, duplicate-free, has room for one more column that does NOT
+   carry the mark — so `p_to_do[n_to_do] = j`, `p_scan[up] = j`, `p_ready[n_ready] = j1` are inside
+   their n-entry arrays as long as the marks are kept (set on every push, compared before it). *)
+From Centro Require Proofs.GraphC19Safe.
+
+Theorem marked_list_capacity : forall (n i j : Z) (mark : Z -> Z) (l : list Z),
+  0 <= n -> NoDup l -> (forall x, In x l -> 0 <= x < n /\ mark x = i) -> 0 <= j < n -> mark j <> i ->
+  zlen l < n /\ NoDup (j :: l).
+Proof.
+  intros n i j mark l Hn Hnd Hl Hj Hm.
+  assert (Nin : ~ In j l) by (intros Hin; apply Hl in Hin; lia).
+  assert (Nd : NoDup (j :: l)) by (constructor; assumption).
+  split; [|exact Nd].
+  assert (Fr : Forall (fun v => 0 <= v < n) (j :: l)).
+  { constructor; [assumption|]. apply Forall_forall. intros x Hx. apply Hl in Hx. lia. }
+  pose proof (GraphC19Safe.nodup_bound _ n Hn Nd Fr) as B. unfold zlen in *. cbn [length] in B. lia.
+Qed.
